@@ -1,5 +1,6 @@
 """C08 — barriers release nobody early and everybody once the last waiter arrives
 (history conformance with LTS Conc/Barrier.v + independent per-round arrival monitors)."""
+import os, vlib
 import vlib, hist
 
 ID = "C08"
@@ -24,7 +25,7 @@ MANIFEST = {
             "context switch) is abstracted to pcs UQ/US/ES and covered by C02/C11; libc pthread_barrier (xstream barrier; the "
             "sense-reversal #else branch is not compiled, not modelled). ABT_barrier_reinit is modelled only inside its "
             "documented contract (counter == 0, no concurrent caller: it takes no lock); ABT_barrier_free and NULL handles are "
-            "not modelled. Termination under fair scheduling is not claimed beyond: the broadcast reaches every queued caller "
+            "not modelled (a free by a just-released waiter is checked by the directed harness h_c08_free.c, not by a theorem). Termination under fair scheduling is not claimed beyond: the broadcast reaches every queued caller "
             "and the harness watchdog.",
     "technique": "Coq proof of an inductive invariant over a parametric LTS with ghost round counters + history conformance "
                  "(recorded hook events replayed by the extracted step function) + independent runtime monitors",
@@ -156,6 +157,33 @@ def gen(rng, tier):
                  "waits": sum(s.count(" W") + s.count(" X") for s in scs), "reinits": sum(s.count(" R") for s in scs)}
 
 
+def stage_extra(rep, sc, lib, cov, tier, seed):
+    """ABT_barrier_free by a waiter the last round has just released, with the last arrival held between its counter
+    reset and its lock release (harness/h_c08_free.c, directed through the hook table; verdict from the hook records:
+    a record on the barrier after ABT_barrier_free returned)."""
+    exe = os.path.join(sc, "h_c08_free")
+    ok, err = vlib.build_harness(sc, os.path.join(vlib.HARNESS, "h_c08_free.c"), exe, lib=lib)
+    if not ok:
+        rep.violation("free-race-build-%d.txt" % seed, "harness/h_c08_free.c does not compile against the tree:\n" + err,
+                      found_input=False)
+        return
+    rounds = 5 if tier == "quick" else 60
+    rc, out, err = vlib.run([exe, str(rounds)], timeout=600)
+    lines = [l for l in out.split("\n") if l]
+    cov["free_race_configs"] = len(lines)
+    cov["free_race_rounds"] = rounds * len(lines)
+    bad = [l for l in lines if not l.startswith("OK")]
+    if rc != 0 or bad or not lines:
+        rep.violation("free-race-%d.json" % seed,
+                      {"kind": "free-race", "property": ID, "seed": seed, "command": "h_c08_free %d" % rounds,
+                       "exit": rc, "output": lines, "stderr": err[-2000:],
+                       "explanation": "a waiter released by the last arrival freed the barrier while the last arrival was still "
+                                      "inside its critical section: the barrier's memory was given back before the round was over "
+                                      "(late counter / lock stores land in freed, possibly reused memory: the next barrier in that "
+                                      "block loses an arrival)"},
+                      found_input=True, text=(bad or ["rc=%s %s" % (rc, err[-300:])])[0])
+
+
 def run(tier, seed, replay):
     return hist.run_history_property(
         ID, "Properties_C08.v", ["Properties_C08.vo", "Extract_C08.vo"], "c08", "h_c08.c", gen, tier, seed, replay=replay,
@@ -169,4 +197,7 @@ def run(tier, seed, replay):
                            "ABT_xstream_barrier_wait is pthread_barrier_wait in this configuration (libc, trusted); only the "
                            "API-level monitor is applied to it; the sense-reversal #else branch is not compiled",
                            "ABT_barrier_reinit is modelled only inside its documented contract (counter == 0, no concurrent "
-                           "caller)"])
+                           "caller)",
+                           "ABT_barrier_free is not a step of the LTS: a free by a just-released waiter is checked by the "
+                           "directed harness h_c08_free.c (hook records on the barrier after the free returned)"],
+        stage_extra=None if replay else stage_extra)
